@@ -554,3 +554,38 @@ SPECS['C20'] = dict(queries=c20, assumptions=COMMON_ASSUMPTIONS + [
     "lr_guarded: plain payload copies (the documented requirement that roll-back copies do not throw); fair-spin yield as in C03"],
     outside=["cow_guarded / deferred_guarded / DelayedDestructor / SearchableObjectHolder clauses: decided in the C04 / C06 / C16 / C17 harnesses where claimed",
              "exceptions thrown by the roll-back copy itself", "more than 3 threads"])
+
+
+# ------------------------------------------------------------------------------------------------ C04 (cow_guarded) + cow clauses of C14 / C20
+def cowq(name, tl, rounds, defines=(), order=None, **kw):
+    T = {'W': ('W', 'vp_writer'), 'V': ('V', 'vp_writer_b'), 'R': ('R', 'vp_reader'), 'S': ('S', 'vp_reader')}
+    threads = [T[t] for t in tl]
+    kw.setdefault('timeout', 1500)
+    kw.setdefault('unwind', 3)
+    return mk(name, 'c04_cow.cpp', threads, rounds, order=order, final='vp_final', cover=(1 << len(tl)) - 1, defines=list(defines),
+              opts={'yield_blocks': True}, checks='pointer', **kw)
+
+
+def c04(tier):
+    qs = []
+    if tier == 'quick':
+        qs.append(cowq('cow_commit_reader_R2', 'WR', 2, defines=['WMODE=0', 'NSNAP=1']))
+        qs.append(cowq('cow_reader_commit_R2', 'WR', 2, order=(1, 0), defines=['WMODE=0', 'NSNAP=1']))
+        qs.append(cowq('cow_cancel_commit_R2', 'WV', 2, defines=['WMODE=1', 'WMODE_B=0', 'NSNAP=1']))
+        qs.append(cowq('cow_move_reader_R2', 'WR', 2, defines=['WMODE=2', 'NSNAP=1']))
+    else:
+        qs.append(cowq('cow_commit_reader2_R3', 'WR', 3, defines=['WMODE=0', 'NSNAP=2'], timeout=3400))
+        qs.append(cowq('cow_commit_cancel_R2', 'WV', 2, defines=['WMODE=0', 'WMODE_B=1', 'NSNAP=1'], timeout=3400))
+        qs.append(cowq('cow_move_commit_R2', 'WV', 2, defines=['WMODE=2', 'WMODE_B=0', 'NSNAP=1'], timeout=3400))
+        for od in orders(3, 'all'):
+            qs.append(cowq('cow_w_w_r_R2_o' + ''.join(map(str, od)), 'WVR', 2, order=od, defines=['WMODE=0', 'NSNAP=1'], timeout=3400))
+        qs.append(cowq('cow_cancel_reader_R3', 'WR', 3, defines=['WMODE=1', 'NSNAP=1'], timeout=3400))
+    return qs
+
+
+SPECS['C04'] = dict(queries=c04, assumptions=COMMON_ASSUMPTIONS + [
+    "std::shared_ptr / make_shared / control blocks are real libstdc++ header code in the formula (libstdc++'s single-threaded fast paths are folded away: "
+    "__libc_single_threaded is the constant 0); the virtual _M_dispose/_M_destroy run atomically; use-after-free of a snapshot or control block is a cbmc pointer-check failure",
+    "each writer reads the committed value under its handle and asserts that it equals the number of commits so far (ghost), inside an exclusive access window",
+    "try_lock / try_lock_for / try_lock_until of cow_guarded are not instantiated: they do not compile in the unchanged library (handle() is ill-formed)"],
+    outside=["more than 2 writers + 1 reader, more than 2 snapshots per reader", "R >= 3 with three threads"])
